@@ -128,6 +128,21 @@ func workerMain(prop string) {
 		pprof.StartCPUProfile(f)
 		defer pprof.StopCPUProfile()
 	}
+	if hp := os.Getenv("VERIF_HEAPPROF"); hp != "" { // development aid: periodic heap profiles of this worker
+		go func() {
+			for {
+				time.Sleep(30 * time.Second)
+				if f, err := os.Create(fmt.Sprintf("%s/heap-%d.pprof", hp, os.Getpid())); err == nil {
+					pprof.WriteHeapProfile(f)
+					f.Close()
+				}
+				if f, err := os.Create(fmt.Sprintf("%s/goroutines-%d.txt", hp, os.Getpid())); err == nil {
+					pprof.Lookup("goroutine").WriteTo(f, 1)
+					f.Close()
+				}
+			}
+		}()
+	}
 	c, ok := checks[prop]
 	if !ok {
 		fmt.Fprintln(os.Stderr, "no such check", prop)
